@@ -486,6 +486,14 @@ class Engine(FuncVerifier):
         for loc in mods:
             self.havoc_loc(st, loc, ctx)
         st.snap()
+        # callbacks made by earlier iterations: an unknown number
+        for nm in [k for k, c in smt.CONTRACTS.items() if k.startswith("cb.") or "logged" in c.props]:
+            n0 = len([x for x in st.calllog if x[0] == nm])
+            cur = (st.callbase[nm] + n0) if nm in st.callbase else z3.IntVal(n0)
+            c = fresh("ncalls", I)
+            st.pc.append(c >= cur)  # counters only grow
+            st.callbase[nm] = c
+        st.calllog = []
 
     def _all_locals(self, st):
         chain = []
@@ -733,7 +741,7 @@ class Engine(FuncVerifier):
         fn: ast.FunctionDef = fv.py
         frame = State()
         frame.heap, frame.pc, frame.schemas, frame.idx, frame.ctx = st.heap, st.pc, st.schemas, st.idx, st.ctx
-        frame.events, frame.loads = st.events, st.loads
+        frame.events, frame.loads, frame.calllog, frame.callbase = st.events, st.loads, st.calllog, st.callbase
         frame.parent = st
         frame.old = st.old
         frame.decisions = st.decisions
@@ -777,6 +785,11 @@ class Engine(FuncVerifier):
             st.locals[p] = self.assume_type(st, t, ty)
             st.pc.append(z3.Implies(is_ref(t), z3.And(rval(t) >= 0, rval(t) < st.heap.A)))
         st.snap()
+        # callbacks made before this activation: an unknown number (absolute counters)
+        for nm in [k for k, c in smt.CONTRACTS.items() if k.startswith("cb.") or "logged" in c.props]:
+            c0 = fresh("ncalls0", I)
+            st.pc.append(c0 >= 0)
+            st.callbase[nm] = c0
         self.entry = self.snapshot(st, st.locals)
         view = self.spec_view(st, st.locals, None)
         for clause in con.requires:
@@ -822,6 +835,19 @@ class Engine(FuncVerifier):
             self.oblige(st, self.type_pred(st, self.to_val(st, val), con.returns), "post", None, "result-type")
             if val.ty is None or val.kind is None:
                 val = SV(self.to_val(st, val), self._kind_of(con.returns), con.returns)
+        if con.calls is not None:
+            want = con.calls
+            got = st.calllog
+            ok = all(st.callbase.get(k) is self.entry.callbase.get(k) for k in st.callbase) and len(got) == len(want) and \
+                all(g[0] == w[0] for g, w in zip(got, want))
+            self.oblige(st, z3.BoolVal(ok), "post", None, "callback-calls")
+            if ok:
+                ev0 = self.spec_view(self.entry, dict(self.entry.locals), None)
+                ev0.pc, ev0.schemas, ev0.idx, ev0.ctx = st.pc, st.schemas, st.idx, st.ctx
+                for k, (g, w) in enumerate(zip(got, want)):
+                    for j, e in enumerate(w[1]):
+                        exp = self.ev(ast.parse(e, mode="eval").body, ev0)
+                        self.oblige(st, self.to_val(st, g[1][j]) == self.to_val(st, exp), "post", None, f"callback-arg[{k}][{j}]")
         view = self.spec_view(st, dict(self.entry.locals, result=val), self.entry)
         for k, clause in enumerate(con.ensures):
             for f in self.formulas(clause, view, "assert"):
@@ -946,23 +972,20 @@ def verify_function(qual: str, prefix: str, timeout_ms: int = 10000):
     if eng.n_paths == 0 and "noreturn" not in con.props:
         obs.append(core.Ob(f"{prefix}/{qual}/cover", core.UNDECIDED, "z3", 0.0,
                            "no feasible path reaches a normal exit (vacuity check)", functions=[qual]))
-    # group VCs of the same name (same obligation on several paths) into one obligation
-    groups: Dict[str, List[VC]] = {}
-    for vc in eng.vcs:
-        groups.setdefault(vc.name, []).append(vc)
-    for name, vcs in groups.items():
-        status, details, tt = core.DISCHARGED, [], 0.0
-        for vc in vcs:
-            s, d, m, dt = smt.solve_vc(vc, timeout_ms)
-            tt += dt
-            if s == core.REFUTED:
-                status = core.REFUTED
-                details = [f"line {vc.lineno}: {d}"]
-                break
-            if s == core.UNDECIDED:
-                status = core.UNDECIDED
-                details.append(f"line {vc.lineno}: {d}")
-        obs.append(core.Ob(name, status, "z3", tt, "\n".join(details) or f"{len(vcs)} path(s): unsat",
-                           functions=[qual], sample=f"{len(vcs)} path VC(s) of {qual}"))
-        eng.solver_time += tt
+    # VCs of the same name (same obligation on several paths) form one obligation
+    groups: Dict[str, dict] = {}
+    for vc, st_, det, dt in smt.solve_all(eng.vcs, timeout_ms):
+        g = groups.setdefault(vc.name, dict(status=core.DISCHARGED, details=[], t=0.0, n=0))
+        g["n"] += 1
+        g["t"] += dt
+        if st_ == core.REFUTED and g["status"] != core.REFUTED:
+            g["status"] = core.REFUTED
+            g["details"] = [f"line {vc.lineno}: {det}"]
+        elif st_ == core.UNDECIDED and g["status"] == core.DISCHARGED:
+            g["status"] = core.UNDECIDED
+            g["details"].append(f"line {vc.lineno}: {det}")
+    for name, g in groups.items():
+        obs.append(core.Ob(name, g["status"], "z3", g["t"], "\n".join(g["details"]) or f"{g['n']} path(s): unsat",
+                           functions=[qual], sample=f"{g['n']} path VC(s) of {qual}"))
+        eng.solver_time += g["t"]
     return obs, finfo, eng
